@@ -96,7 +96,7 @@ type recJ struct {
 	Keys  []string `json:"keys"` // the key-by result: one keyed event per entry (may be empty)
 }
 type opJ struct {
-	Op    string `json:"op"` // read | barrier | tick | fire | relkb | holdop | relop
+	Op    string `json:"op"` // read | barrier | tick | fire (which: all|new|old) | relkb | holdop | relop
 	Recs  []recJ `json:"recs,omitempty"`
 	ID    uint64 `json:"id,omitempty"`
 	I     int    `json:"i,omitempty"`
@@ -304,6 +304,27 @@ func (t *ftimer) Set(d time.Duration, do func()) {
 	t.mu.Unlock()
 }
 func (t *ftimer) Stop() {}
+// fireOne fires only the most recently (newest) or the least recently set callback; the others stay pending, which is
+// the behaviour of a timer whose Stop came in time for them or whose delay has not elapsed yet.
+func (t *ftimer) fireOne(newest bool) int {
+	t.mu.Lock()
+	if len(t.pend) == 0 {
+		t.mu.Unlock()
+		return 0
+	}
+	var f func()
+	if newest {
+		f = t.pend[len(t.pend)-1]
+		t.pend = t.pend[:len(t.pend)-1]
+	} else {
+		f = t.pend[0]
+		t.pend = t.pend[1:]
+	}
+	t.fired++
+	t.mu.Unlock()
+	go f()
+	return 1
+}
 func (t *ftimer) fireAll(auto bool) int {
 	t.mu.Lock()
 	p := t.pend
@@ -519,7 +540,14 @@ func runCase(p params, ops []opJ) (*observed, error) {
 				rd.inbox <- &chunk{nop: true}
 			}
 		case "fire":
-			ft.fireAll(false)
+			switch op.Which {
+			case "new":
+				ft.fireOne(true)
+			case "old":
+				ft.fireOne(false)
+			default:
+				ft.fireAll(false)
+			}
 		case "relkb":
 			h.release(op.Which)
 		case "relop":
@@ -813,13 +841,54 @@ func genCase(r *hx.Rand, big bool) *hx.Case {
 		case x < 12:
 			ops = append(ops, hx.Op(opJ{Op: "tick"}))
 		case x < 15:
-			ops = append(ops, hx.Op(opJ{Op: "fire"}))
+			ops = append(ops, hx.Op(opJ{Op: "fire", Which: hx.Pick(r, []string{"", "", "new", "old"})}))
 		case x < 18:
 			ops = append(ops, hx.Op(opJ{Op: "relkb", Which: hx.Pick(r, []string{"old", "new", "new", "all"})}))
 		case x < 19:
 			ops = append(ops, hx.Op(opJ{Op: "holdop", I: r.Intn(p.NOps)}))
 		default:
 			ops = append(ops, hx.Op(opJ{Op: "relop", I: r.Intn(p.NOps)}))
+		}
+	}
+	// a block aimed at the sender's select: every operator holds its current batch, enough records of one key arrive
+	// to fill a second batch (the joiner must wait with it) and start a third, the time-outs fire, the operators let go
+	if r.Chance(2, 5) {
+		for i := 0; i < p.NOps; i++ {
+			ops = append(ops, hx.Op(opJ{Op: "holdop", I: i}))
+		}
+		eff := p.MaxSize
+		if eff == 0 {
+			eff = 1
+		}
+		k := alphabet[r.Intn(nalpha)]
+		sp := r.Intn(nsplits)
+		// eff records (the key-by batches are full) carrying 2*eff+1 events of one key (two operator batches and one more)
+		var recs []recJ
+		for i := 0; i < eff; i++ {
+			ks := []string{k, k}
+			if i == 0 {
+				ks = []string{k, k, k}
+			}
+			if eff == 1 {
+				ks = []string{k}
+			}
+			recs = append(recs, recJ{ID: id, Split: sp, Keys: ks})
+			id++
+		}
+		if eff == 1 {
+			for i := 0; i < 2; i++ {
+				recs = append(recs, recJ{ID: id, Split: sp, Keys: []string{k}})
+				id++
+			}
+		}
+		ops = append(ops, hx.Op(opJ{Op: "relkb", Which: "all"}), hx.Op(opJ{Op: "read", Recs: recs}), hx.Op(opJ{Op: "relkb", Which: "all"}),
+			hx.Op(opJ{Op: "relkb", Which: "all"}), hx.Op(opJ{Op: "relkb", Which: "all"}), hx.Op(opJ{Op: "fire", Which: "new"}))
+		if r.Bool() {
+			ops = append(ops, hx.Op(opJ{Op: "barrier", ID: bar}))
+			bar++
+		}
+		for i := 0; i < p.NOps; i++ {
+			ops = append(ops, hx.Op(opJ{Op: "relop", I: i}))
 		}
 	}
 	// a tail that exercises the select race: fire time-outs while operators hold, then release
